@@ -61,7 +61,8 @@ pub const PLACEMENTS: [&str; 8] = ["top-kept", "top-discarded", "block-kept", "b
 pub fn place(e: &E, placement: usize) -> Vec<E> {
     let frame = placement / 2;
     let kept = placement % 2 == 0;
-    let defs = vec![fun("f", &["p"], var("p")), fun("g", &["p", "q"], binop("+", var("p"), var("q")))];
+    let defs = vec![fun("f", &["p"], if_(binop("==", var("p"), E::Null), int(0), Some(var("p")))),
+                    fun("g", &["p", "q"], block(vec![while_(E::Bool(false), var("p")), binop("+", var("p"), var("q"))]))];
     let mut p = defs;
     match frame {
         0 => {
